@@ -79,6 +79,7 @@ ncreset_cdflist(void)
         free(_cdfs);
         _cdfs      = NULL;
         _cdfs_size = 0;
+        _ncdf      = 0; /* no file is open: the high water mark must not outlive the list it indexes */
     }
     return 0;
 }
